@@ -185,6 +185,7 @@ def message_zonefile_items(defs, ab, lim, LIM):
     b = fn_body(ab, "parse_name_len", after="impl<Octs> Name<Octs>")
     m = one(r"if len (>=|>) " + LIM + r" \{\s*Err\(NameError\(DnameErrorEnum::LongName\)\.into\(\)\)", b, "Name::parse_name_len limit")
     boo("name_parse_ge", ge(m.group(1))); nat("name_parse_lim", lim(m.group(2)))
+    one(r"let mut tmp = parser\.peek_all\(\);\s*loop \{\s*if tmp\.is_empty\(\) \{\s*return Err\(ParseError::ShortInput\);\s*\}\s*let \(label, tail\) = Label::split_from\(tmp\)\?;\s*tmp = tail;\s*if label\.is_root\(\) \{\s*break;\s*\}\s*\}\s*parser\.remaining\(\) - tmp\.len\(\)", b, "Name::parse_name_len loop")
     zf = strip_comments(read("src/zonefile/inplace.rs"))
     b = fn_body(zf, "convert_label")
     m = one(r"let start = \*write;\s*\*write \+= 1;\s*let latest = \*write \+ " + NUM + r";", b, "convert_label latest")
@@ -302,6 +303,17 @@ def serde_const_items(defs, ab):
     one(r"fn visit_str<E: serde::de::Error>\(\s*self,\s*v: &str,\s*\) -> Result<Self::Value, E> \{\s*use core::str::FromStr;\s*UncertainName::from_str\(v\)\.map_err\(E::custom\)\s*\}", un, "UncertainName visit_str")
     m = one(r"fn visit_str<E: serde::de::Error>\(\s*self,\s*v: &str,\s*\) -> Result<Self::Value, E> \{\s*(?:(let mut builder = NameBuilder::<Octs::Builder>::new\(\);\s*builder\.append_chars\(v\.chars\(\)\)\.map_err\(E::custom\)\?;\s*Ok\(builder\.finish\(\)\))|(RelativeName::from_chars\(v\.chars\(\)\)\.map_err\(E::custom\)))\s*\}", rel, "RelativeName visit_str")
     boo("serde_rel_checks_absolute", m.group(2) is not None)
+    # UncertainName::from_chars: does it special-case the single dot (root)?
+    b = fn_body(un, "from_chars")
+    TAILP = r"\s*if builder\.in_label\(\) \|\| builder\.is_empty\(\) \{\s*Ok\(builder\.finish\(\)\.into\(\)\)\s*\} else \{\s*Ok\(builder\.into_name\(\)\?\.into\(\)\)\s*\}\s*$"
+    HEADP = r"^\s*let mut builder =\s*NameBuilder::<<Octets as FromBuilder>::Builder>::new\(\);\s*"
+    m_old = re.search(HEADP + r"builder\.append_chars\(chars\)\?;" + TAILP, b, re.S)
+    m_new = re.search(HEADP + r"let root = Symbols::with\(chars\.into_iter\(\), \|symbols\| \{\s*match symbols\.next\(\) \{\s*Some\(Symbol::Char\('\.'\)\) => \{\s*if symbols\.next\(\)\.is_some\(\) \{\s*Err\(FromStrError::empty_label\(\)\)\s*\} else \{\s*Ok\(true\)\s*\}\s*\}\s*"
+                      r"Some\(first\) => \{\s*builder\.push_symbol\(first\)\?;\s*builder\.append_symbols\(symbols\)\?;\s*Ok\(false\)\s*\}\s*None => Ok\(false\),\s*\}\s*\}\)\?;\s*"
+                      r"if root \{\s*return Name::from_symbols\(core::iter::once\(Symbol::Char\('\.'\)\)\)\s*\.map\(Into::into\);\s*\}" + TAILP, b, re.S)
+    if (m_old is None) == (m_new is None):
+        raise GenError("UncertainName::from_chars: neither known shape matches")
+    boo("uncertain_from_chars_root_special", m_new is not None)
     # Display for UncertainName
     b = fn_body(un, "fmt", after="fmt::Display for UncertainName")
     m = one(r"^\s*match \*self \{\s*UncertainName::Absolute\(ref name\) => \{\s*(?:(write!\(f, \"\{\}\.\", name\))|(if name\.is_root\(\) \{\s*name\.fmt\(f\)\s*\} else \{\s*write!\(f, \"\{\}\.\", name\)\s*\}))\s*\}\s*UncertainName::Relative\(ref name\) => name\.fmt\(f\),\s*\}\s*$", b, "Display for UncertainName")
